@@ -64,6 +64,12 @@ class GenResult:
         name = self.root + ("." + package if package else "")
         return importlib.import_module(name)
 
+    def forget_imports(self):
+        """Drop the generated modules from sys.modules (the next import starts from scratch)."""
+        for k in [k for k in sys.modules if k == self.root or k.startswith(self.root + ".")]:
+            del sys.modules[k]
+        importlib.invalidate_caches()
+
     def fds(self):
         from google.protobuf import descriptor_pb2
 
